@@ -50,6 +50,14 @@ Parameter-coverage additions (audit of families x routines x flags):
   C11.als.flags                als with lamb=None, weights, allow_skip_cores with unsampled slices, update_sol, rank-adaptive
                                with lamb=None / weights / r_add = 1 / allow_swap, on zero / constant / one-hot / zero-slice data
   C11.anova.class_flags        ANOVA.cores(rel_noise) twice on one object, r above the mode sizes, constant and zero data
+  C11.scalars.many_modes       (gap closure) scalars of degenerate tensors with MORE ENTRIES THAN int64 CAN COUNT (2^63 .. 5^130: [2]*63,
+                               [2]*64, [2]*65, [4]*32, [16]*16, [3]*41, [65536]*4, d up to 130, modes of size 1 mixed in, ragged): 14
+                               families (zero tensors with all / first / middle / last core zero and const(n, 0.), exact cancellation
+                               X - X, constant, rank 1, rank-deficient, over-ranked, zero-padded and duplicated bonds, generic signed /
+                               non-negative); sum, mean (default, norm=False, explicit P), mul_scalar, norm (both flags), erank are
+                               finite and agree with EXACT rational arithmetic on the dyadic core chain (64 d eps of the chain of
+                               moduli; exactly 0 for a zero core), accuracy: sentinel -1 against a zero reference, 1/2 against 2Y, 1 for
+                               the zero tensor against Y.  Stands on its own (no other teneva routine in the reference).
 """
 import contextlib, io, math
 import numpy as np
@@ -62,7 +70,9 @@ BOUNDS = ('shapes gen.shapes(d<=4, n<=4) incl. mode size 1 and d=2; 17 families 
           'ranks 1..4 (+3 over-ranked); truncate: e in {1e-10,1e-2,10}, cap in {1e12,1,2}, all 8 flag combinations; '
           'all pivots; qtt: d<=4, q<=3; cross/als/anova: d=2..4, zero / constant / one-hot / zero-slice data, full / repeated / sparse samples, '
           'every stop criterion of cross (6 budgets m), 9 option sets of als, zero tensors x all truncate flags x 4 (e, cap); '
-          'cross (dr_min, dr_max) in all 13 pairs {0<=a<=b<=3, (4,4), (2,5), (5,5)} x 8 shapes (n<=4, d<=4; thorough 14, n<=5, d<=6) x start ranks 1..3')
+          'cross (dr_min, dr_max) in all 13 pairs {0<=a<=b<=3, (4,4), (2,5), (5,5)} x 8 shapes (n<=4, d<=4; thorough 14, n<=5, d<=6) x start ranks 1..3; '
+          'scalars of tensors with 2^63 .. 5^130 entries: 13 shapes (thorough 18: d = 16..130, n = 2..16, 256, with modes of size 1, ragged) + '
+          '[65536]*4 (+ [2^21]*3) x 14 degenerate families x ranks 2..3 (1..3), exact rational reference')
 
 NONZERO = ('gauss', 'int', 'rank1', 'over', 'rankdef', 'const', 'cancel')
 ZERO = ('zero_all', 'zero_first', 'zero_mid', 'zero_last', 'const0', 'mul0')
@@ -1187,6 +1197,21 @@ def cases(tier, seed):
                     for rel_noise in (0., 1e-3):
                         yield 'C11.anova.class_flags', dict(shape=shape, c=c, order=order, r=r, rel_noise=rel_noise,
                                                             how='rep', seed=13)
+    # ---- gap closure: scalars of degenerate tensors with >= 2^63 entries (the element count overflows int64 / wraps to 0) ----
+    many = [(63, 2, 'uniform'), (64, 2, 'uniform'), (32, 4, 'uniform'), (65, 2, 'uniform'), (16, 16, 'uniform'), (41, 3, 'uniform'),
+            (64, 2, 'ones'), (70, 2, 'lead1'), (64, 2, 'tail1'), (40, 3, 'ragged'), (130, 2, 'uniform'), (100, 3, 'uniform'),
+            (28, 5, 'uniform')] + ([(130, 5, 'uniform'), (128, 2, 'uniform'), (96, 4, 'ones'), (22, 8, 'ragged'), (8, 256, 'uniform')] if big else [])
+    k = 0
+    for j, (d_, nk_, mix) in enumerate(many):
+        for fam in MANY_FAMS:
+            k += 1
+            if big or j < 2 or k % 4 == 0 or (fam in ('zero_mid', 'const') and j % 2) or (fam in ('const0', 'rank1') and not j % 2):
+                for r in ((1, 2, 3) if big else (2 + k % 2,)):
+                    for sd in range(2 if big else 1):
+                        yield 'C11.scalars.many_modes', dict(d=d_, nk=nk_, mix=mix, fam=fam, r=r, seed=sd)
+    for (d_, nk_) in ((4, 65536),) + (((3, 1 << 21),) if big else ()):          # few modes of huge size: 2^64 / 2^63 entries
+        for fam in ('rank1', 'const', 'const0') + (('zero_all', 'zero_last', 'pos', 'signed') if nk_ < 1 << 20 else ()):
+            yield 'C11.scalars.many_modes', dict(d=d_, nk=nk_, mix='uniform', fam=fam, r=1, seed=0)
     # random part
     for rep in range(600 if big else 150):
         shape = shapes[int(g.integers(len(shapes)))]
